@@ -35,6 +35,14 @@ def budget(tier):
             "soft_seconds": 300 if tier == "quick" else 3000}
 
 
+def _search_lex(seed):
+    """bases from C04's oracle-guided search (cardinality ties, several minimum-cardinality sets)"""
+    from . import c04
+    c = dict(c04.search(seed))
+    c["lexsearch"] = True
+    return c
+
+
 @st.composite
 def _case(draw, tier):
     q = tier == "quick"
@@ -42,6 +50,7 @@ def _case(draw, tier):
         gen.strong_case(2, 5, 6, qlo=1, qhi=1),
         gen.strong_case(2, 5, 6, qlo=1, qhi=1),
         gen.weak_case(2, 5, 6, qlo=1, qhi=1),
+        st.integers(0, 2**40).map(_search_lex),
         rel.medium_case(8, 16 if q else 30, 16 if q else 30, nq=1),
         rel.corpus_case(20 if q else 60, 20 if q else 60, nq=1),
         rel.corpus_case(6, 10, families=["484", "AO", "birds"], nq=1),
@@ -184,6 +193,12 @@ def run_case(case, ctx):
     src = case.get("family") or ("medium" if case.get("medium") else "small")
     ctx.stratum(f"source:{src}")
     pool = build_pool(atoms, base, rnd)
+    if case.get("lexsearch"):
+        # the searched query and its Cut / CM companions join the premise pool
+        ctx.stratum("source:lex-search")
+        for _, B, A in gen.case_parts(case)[2][:2]:
+            x = gen.r_literal(rnd, atoms)
+            pool = [(B, A), (x, A), (B, fm.And(A, x)), (fm.Not(x), A), (B, fm.And(A, fm.Not(x)))] + pool
     if not pool:
         return []
     pq = [(i + 1, B, A) for i, (B, A) in enumerate(pool)]
